@@ -2,6 +2,7 @@ import Mp4ff.Model.Segmenter
 import Mp4ff.Lemmas.C11
 import Mp4ff.Model.Combine
 import Mp4ff.Lemmas.C05
+import Mp4ff.Expect.Transcribed
 /-!
 # C11 — segmenting, resegmenting and multiplexing conserve every sample
 Property theorems about `Model/Segmenter.lean`: the three grouping algorithms (segmenter intervals, resegmenter loop,
@@ -93,5 +94,10 @@ theorem combineNoTrex_loses :
     Frag.combineNoTrex [⟨{}, { defDur := 20 }, { hasDur := false, samples := [⟨0, 20, 5, 0⟩] }⟩] {} {} = [[⟨0, 0, 5, 0⟩]] ∧
     Frag.combine [⟨{}, { defDur := 20 }, { hasDur := false, samples := [⟨0, 20, 5, 0⟩] }⟩] {} {} = [[⟨0, 20, 5, 0⟩]] := by
   decide
+
+/-- the Go functions the models of this property transcribe (committed table `spec/transcribed.json`, checked against
+    the current source by the extractor on every run) all still exist -/
+theorem model_sources_exist :
+    (["Combine.lean", "Frag.lean", "SampleTables.lean", "Segmenter.lean"] : List String).all Mp4ff.Expect.presentFor = true := by decide +kernel
 
 end Mp4ff.Segmenter.C11
